@@ -91,6 +91,59 @@ def bulk_count(sl):
     observe("enough bulks for all documents, none empty", s_and(total * bulk >= carried, total <= carried))
 
 
+def mmap_source_lines(sl):
+    """the real io.MmapSource on a real (small, temporary) file - the in-memory source of reader_stack stands for it: readline / readlines
+    hand out every line of the file exactly once, in order, byte for byte - also a last line without a line terminator, which the line
+    count of the preparation step counts as a document"""
+    import os as _os
+    import tempfile
+
+    from esrally.utils import io as rio
+
+    n = concrete(fresh_int("lines", 0, 4))
+    terminated = bool(fresh_bool("last_line_ends_with_newline")) if n > 0 else True
+    batch = concrete(fresh_int("lines_per_readlines_call", 1, 3))
+    multibyte = bool(fresh_bool("multi_byte_content"))
+    lines = [('{"id": %d, "s": "%s"}\n' % (i, "\u00e4\u2603" if multibyte else "x")).encode("utf-8") for i in range(n)]
+    if lines and not terminated:
+        lines[-1] = lines[-1][:-1]
+    d = tempfile.mkdtemp(prefix="verif-c03-")
+    path = _os.path.join(d, "docs.json")
+    try:
+        with open(path, "wb") as f:
+            f.write(b"".join(lines))
+        got, single = [], []
+        if n == 0:
+            # mmap cannot map an empty file; the preparation step rejects a file without lines anyway
+            core.trace("lines", 0)
+            observe("(empty file: nothing to read)", True)
+            return
+        with rio.MmapSource(path, "rt") as src:
+            while True:
+                chunk = src.readlines(batch)
+                if not chunk:
+                    break
+                got.extend(chunk)
+                if len(got) > n + 2:
+                    break
+        with rio.MmapSource(path, "rt") as src:
+            while True:
+                line = src.readline()
+                if line == b"":
+                    break
+                single.append(line)
+                if len(single) > n + 2:
+                    break
+    finally:
+        try:
+            _os.remove(path)
+        finally:
+            _os.rmdir(d)
+    core.trace("lines", n)
+    observe("readlines hands out every line of the file exactly once, in order, byte for byte (an unterminated last line included)", got == lines)
+    observe("readline does the same", single == lines)
+
+
 def _decimal_text(x):
     """str() of the percentage: Python prints the shortest decimal that reads back as the same double, i.e. the decimal the user wrote
     (assumption, listed in the evidence); for a symbolic percentage the 'text' is the exact value itself"""
@@ -403,6 +456,10 @@ HARNESSES = [
             doc="number_of_bulks == sum of ceil(docs/bulk)"),
     Harness("ingest_percentage", ingest_percentage, "symbolic", lambda tier: [{"bulk": b} for b in (1, 3, 1000)], reads=READS, float_model="R",
             assumptions=["floats modelled as exact reals (model R): an IEEE rounding of all_bulks*p/100 just above an integer is outside the claim"], real_valued=True, bounds={"docs": "1..10^12", "p": "symbolic real in (0,100]"}, doc="total_bulks == ceil(all*p/100)"),
+    Harness("mmap_source_lines", mmap_source_lines, "bounded-exhaustive", lambda tier: [{}], reads=[__import__("esrally.utils.io", fromlist=["x"]).MmapSource.readlines],
+            stubs=["none: a real temporary file of <= 4 lines is mapped (removed afterwards)"],
+            bounds={"lines": "0..4", "last line": "terminated or not", "lines per readlines call": "1..3", "content": "ASCII / multi-byte"},
+            doc="the real memory-mapped source behaves like the in-memory source the reader harnesses use"),
     Harness("reader_stack", reader_stack, "bounded-exhaustive", _stack_slices, reads=READS,
             stubs=["io.MmapSource replaced by an in-memory source with the same interface (lines end with \\n); no offset table present"],
             bounds={"files": "<=2 (3 thorough)", "docs per file": "0..5 / 0..3 (4)", "clients": "1..3 (4) in every contiguous split into co-located groups",
